@@ -92,6 +92,14 @@ StaleCases(_u) ==
         E \in {G \in SUBSET Oids : Cardinality(G) \in {1, 2}}, k \in {"status", "transfer"},
         ids \in ReqAll, sh \in BOOLEAN }
 
+(***************************** C04 / C11 : push through a data index ****************)
+\* dvc_data.index.push: the request is what the index lists - always closed, shallow, no failing upload needed -
+\* from a cache that holds every requested directory object but any subset of the files
+IndexPushCases(_u) ==
+    { c \in XferCases(AnySrc("cache", "remote"), PushPair, ReqClosed, {<<TRUE, FALSE>>}, 1) :
+        /\ \A d \in c.req \cap Dirs : Present(c.init, "cache", d)
+        /\ c.F \subseteq XStatus(c.init, {}, c.src, c.dst, c.req, c.shallow, c.idx).new }
+
 GenInit == Init
 GenNext == UNCHANGED vars
 What == IOEnv.GEN_WHAT
@@ -100,6 +108,7 @@ Out == CASE What = "xfer"   -> [push |-> PushCases(0), fetch |-> FetchCases(0)]
          [] What = "status" -> [status |-> StatusCases(0), check |-> CheckCases(0)]
          [] What = "c11"    -> [c11 |-> C11Cases(0), verify |-> VerifyCases(0)]
          [] What = "stale"  -> [stale |-> {c \in StaleCases(0) : c.E \subseteq c.r1}]
+         [] What = "ipush"  -> [ipush |-> IndexPushCases(0)]
          [] What = "c11quick" -> [c11 |-> C11Quick(0), verify |-> VerifyCases(0)]
 ASSUME JsonSerialize(IOEnv.GEN_OUT, Out)
 =============================================================================
